@@ -183,7 +183,7 @@ def run(ctx):
             form = 'try_for_each over the glob result'
         oka = bool(only_ok and every and prop and elem)
         deta = '%s (only adapter filter_map(Result::ok): %s), add_file on every trip %s, error propagated %s, arguments (in_dir, found path) %s' % (form, only_ok, every, prop, elem)
-    ctx.ob(['C14'], 'R-ITER', 'C14-D2|every-found-file-added', oka, 'every discovered file is parsed and added with its path relative to in_dir: %s' % deta, loc(lb.span))
+    ctx.ob(['C14', 'C19', 'C09'], 'R-ITER', 'C14-D2|every-found-file-added', oka, 'every discovered file is parsed and added with its path relative to in_dir: %s' % deta, loc(lb.span))
     # ---- C13-D1 parse gate
     pf = [c for c in wm.calls(lambda r: r['path'] == 'syn::parse_file')]
     okg = False
@@ -669,7 +669,7 @@ def module_new(ctx):
         elem_ = okc and (strip(src_)[0] == 'arg' or any(isinstance(y, tuple) and y[0] == 'payload' and y[2] == 'Some' and is_call(strip(y[1]), 'Iterator::next') for y in walk(src_)))
         oki = oki and bool(elem_)
         deti.append('%s: %s' % (short(g.id), 'clone of the element' if elem_ else 'not an unmodified clone: ' + show(v)[:60]))
-    ctx.ob(['C05', 'C14', 'C18'], 'R-SLP', 'MN|impl-blocks-stored-unchanged', oki,
+    ctx.ob(['C05', 'C14', 'C18', 'C17', 'C16'], 'R-SLP', 'MN|impl-blocks-stored-unchanged', oki,
            'every impl block is stored as an unmodified clone of the parsed block (nothing is added to or removed from its functions and attributes): %s' % deti, where)
     okd = any(is_call(y, 'Attributes::doc') and strip(y[2][0])[0] == 'field' and strip(y[2][0])[2] == 'attributes' for y in walk(m['doc']))
     md = [g for g in P.fns.values() if g.id.endswith('module::Module::doc')]
